@@ -188,12 +188,60 @@ static void m2_locker (void *a) {
 	if (sets) nsync_mu_unlock (&mu); else nsync_mu_unlock_without_wakeup (&mu);
 }
 
+/* MODE 3: a conditional waiter M whose condition stays false (so a writer's unlock leaves "all conditions false" recorded in the
+   mutex), a cv waiter C in writer mode, a thread S that sets C's flag and then signals or broadcasts the cv while the mutex is
+   held only by READERS (C is then transferred to the mutex queue), readers that come and go.  Only after C has returned does the
+   finisher make M's condition true.  C must return without any further writer activity: the wake-up must not be lost. */
+#define M3_CDONE 20
+static int m3_go;
+static void m3_mwaiter (void *a) {
+	nsync_mu_lock (&mu); wsection_begin (); wsection_end ();
+	nsync_mu_wait (&mu, two, &b2, NULL);
+	wsection_begin (); wsection_end (); nsync_mu_unlock (&mu);
+}
+static void m3_cvwaiter (void *a) {
+	nsync_mu_lock (&mu); wsection_begin ();
+	while (!m3_go) { wsection_end (); nsync_cv_wait (&cv, &mu); wsection_begin (); }
+	wsection_end (); nsync_mu_unlock (&mu);
+	vrt_sh_set (M3_CDONE, 1);
+}
+static void m3_signaller (void *a) {
+	int k;
+	for (k = 0; k < (int) vrt_rand (10); k++) vrt_point ("s-wait");
+	nsync_mu_lock (&mu); wsection_begin (); m3_go = 1; wsection_end (); nsync_mu_unlock (&mu);   /* evaluates M's (false) condition */
+	nsync_mu_rlock (&mu); vrt_acquired (&mu, 0);
+	if (vrt_rand (2)) nsync_cv_signal (&cv); else nsync_cv_broadcast (&cv);
+	vrt_point ("after-signal-under-rlock");
+	vrt_releasing (&mu, 0); nsync_mu_runlock (&mu);
+	nsync_cv_broadcast (&cv);     /* in case C started waiting only after the first wake-up (outside any lock: wakes, does not transfer) */
+}
+static void m3_reader (void *a) {
+	int k;
+	for (k = 0; k < 2; k++) { nsync_mu_rlock (&mu); vrt_acquired (&mu, 0); vrt_point ("reading"); vrt_releasing (&mu, 0); nsync_mu_runlock (&mu); }
+}
+static void m3_finisher (void *a) {
+	int k;
+	for (k = 0; k < 3000 && !vrt_sh_get (M3_CDONE); k++) vrt_yield ();
+	if (!vrt_sh_get (M3_CDONE)) vrt_fail ("C04", "the cv waiter was signalled (its flag is set) but has not returned although no writer is active: lost wake-up");
+	nsync_mu_lock (&mu); wsection_begin (); x[2] = 2; wsection_end (); nsync_mu_unlock (&mu);
+}
+
 int main (void) {
 	int i, nw = 2 + (int) vrt_rand (3);
 	static char nm[12][8];
 	vrt_register (&mu, sizeof (mu), "mu0");
 	vrt_set_snapshot (snapshot);
 	cancel = nsync_note_new (NULL, nsync_time_no_deadline);
+	if (vrt_opt ("MODE", 0) == 3) {
+		vrt_thread ("M", m3_mwaiter, NULL);
+		vrt_thread ("C", m3_cvwaiter, NULL);
+		vrt_thread ("S", m3_signaller, NULL);
+		if (vrt_rand (2)) vrt_thread ("R", m3_reader, NULL);
+		vrt_thread ("F", m3_finisher, NULL);
+		vrt_run ();
+		printf ("VRT-END ok\n");
+		return 0;
+	}
 	if (vrt_opt ("MODE", 0) == 2) {
 		vrt_thread ("w", m2_waiter, NULL);
 		vrt_thread ("a", m2_locker, (void *) 1L);
